@@ -585,6 +585,8 @@ pub struct SenderScript {
     /// a late duplicate of this segment, sent this many ms after the Finished PDU was acknowledged
     /// (the transaction has ended by then: the daemon starts a new receive transaction for it)
     pub late_dup: Option<(usize, u64)>,
+    /// the sender's PDUs carry the large-file flag (64-bit offsets and sizes): NAKs then hold fewer requests
+    pub large: bool,
 }
 #[derive(Clone, Copy, Debug, PartialEq)]
 pub enum Item {
@@ -610,7 +612,7 @@ impl ScriptedSender {
             direction: Direction::ToReceiver,
             transmission_mode: mode,
             crc_flag: if s.crc { CRCFlag::Present } else { CRCFlag::NotPresent },
-            large_file_flag: FileSizeFlag::Small,
+            large_file_flag: if s.large { FileSizeFlag::Large } else { FileSizeFlag::Small },
             pdu_data_field_length: 0,
             segmentation_control: SegmentationControl::NotPreserved,
             segment_metadata_flag: SegmentedData::NotPresent,
@@ -758,7 +760,7 @@ pub fn c08_script(fam: &str, idx: usize, seed: u64) -> Option<(SenderScript, Kno
                 }
             }
             order.push(Item::E);
-            let sc = SenderScript { size, seg, content, order, silent_rounds: idx % 2, lose_again: vec![], dup_eof: idx % 5 == 0, prompt_after: None, spacing_ms: 2, checksum: ChecksumType::Modular, crc: idx % 4 == 1, late_dup: if idx % 3 == 0 && n > 0 { Some((n - 1, [50u64, 600, 1500][(idx / 3) % 3])) } else { None } };
+            let sc = SenderScript { size, seg, content, order, silent_rounds: idx % 2, lose_again: vec![], dup_eof: idx % 5 == 0, prompt_after: None, spacing_ms: 2, checksum: ChecksumType::Modular, crc: idx % 4 == 1, late_dup: if idx % 3 == 0 && n > 0 { Some((n - 1, [50u64, 600, 1500][(idx / 3) % 3])) } else { None }, large: idx % 6 == 5 && seg >= 32 };
             let desc = format!("subset: nak={} seg={} segments={} lost-mask={:#b} (bit0 = metadata)", nak_name(&k.nak), seg, n, mask);
             Some((sc, k, desc))
         }
@@ -804,7 +806,7 @@ pub fn c08_script(fam: &str, idx: usize, seed: u64) -> Option<(SenderScript, Kno
             let lose_again: Vec<usize> = (0..nseg).filter(|_| rng.chance(1, 4)).collect();
             let prompt_after = if rng.chance(1, 3) { Some(rng.usize(order.len())) } else { None };
             let late_dup = if nseg > 0 && rng.bool() { Some((rng.usize(nseg), *rng.pick(&[5u64, 50, 400, 900, 1500, 5000]))) } else { None };
-            let sc = SenderScript { size, seg, content, order, silent_rounds: rng.usize(3), lose_again, dup_eof: rng.chance(1, 4), prompt_after, spacing_ms: *rng.pick(&[1u64, 2, 300, 700]), checksum: if rng.chance(1, 5) { ChecksumType::Null } else { ChecksumType::Modular }, crc: rng.bool(), late_dup };
+            let sc = SenderScript { size, seg, content, order, silent_rounds: rng.usize(3), lose_again, dup_eof: rng.chance(1, 4), prompt_after, spacing_ms: *rng.pick(&[1u64, 2, 300, 700]), checksum: if rng.chance(1, 5) { ChecksumType::Null } else { ChecksumType::Modular }, crc: rng.bool(), late_dup, large: seg >= 32 && rng.chance(1, 4) };
             let desc = format!("orders: nak={} seg={} size={} order={:?} silent_rounds={} lose_again={:?} dup_eof={} prompt_after={:?} spacing={}ms late_dup={:?}", nak_name(&k.nak), seg, size, sc.order, sc.silent_rounds, sc.lose_again, sc.dup_eof, sc.prompt_after, sc.spacing_ms, sc.late_dup);
             Some((sc, k, desc))
         }
@@ -900,7 +902,12 @@ pub fn judge_c08(info: &Info, log: &RunLog, rep: &mut Report) {
         (md, cov, eof, prompt)
     };
     let hdr_len = 4 + 2 + 2 + 2; // fixed octets + 2-byte source, sequence number, destination
-    let max_pdu = hdr_len + 4 + seg + if k.crc { 2 } else { 0 };
+    // (offsets are 8 octets wide when the sender's PDUs carry the large-file flag)
+    let large = arr.first().map(|a| a.3.header.large_file_flag == FileSizeFlag::Large).unwrap_or(false);
+    if large {
+        rep.count("c08_runs_with_large_file_flag");
+    }
+    let max_pdu = hdr_len + if large { 8 } else { 4 } + seg + if k.crc { 2 } else { 0 };
     let naks: Vec<_> = em.iter().filter(|e| e.3 == Kind::Nak).collect();
     let cfg = format!("nak={} seg={}", k.shape(), seg);
     // ---- every NAK PDU is well-formed
@@ -1152,7 +1159,7 @@ pub fn run_c08(tier: &str, seed: u64, replay: Option<&str>) -> (Meta, Report) {
         rule: "one real receiving daemon against a scripted sender that knows exactly what it delivered. subsets = EVERY subset of {metadata, segment 0..n-1} lost, n = 0..6 segments, x 4 NAK procedures x segment sizes {16 (one request per NAK PDU: rounds split over several PDUs), 20 (not a multiple of the request size), 32} (complete), with 0 or 1 unanswered rounds and a duplicated EOF in every 5th case; orders = random loss subsets with arrival orders {in order, reversed, shuffled, EOF first, EOF in the middle, duplicates}, re-lost segments, 0-2 unanswered rounds, Prompt(NAK) at a random point, slow and fast pacing. The script answers a round 300 ms after its last PDU so that rounds are not cut short. distinct_nontrivial = distinct (config, size, event-order) signatures among runs in which at least one NAK was emitted.".into(),
         exhaustive: true,
         assumptions: vec!["the only size limit the configuration defines is the largest file-data PDU: header + offset + segment size (+CRC)".into(), "before EOF a request for bytes that arrived meanwhile is not judged (the statement demands exactness after EOF); it must still be well-formed".into()],
-        require: vec![("c08_nak_pdus_checked".into(), 1000), ("c08_rounds_after_eof_judged".into(), 1000), ("c08_rounds_split_over_several_pdus".into(), 100), ("c08_immediate_gaps_judged".into(), 100), ("c08_round_repeats_judged".into(), 200), ("c08_later_lives_judged(deferred)".into(), 200), ("c08_runs_with_receiver_suspend_resume".into(), 50)],
+        require: vec![("c08_nak_pdus_checked".into(), 1000), ("c08_rounds_after_eof_judged".into(), 1000), ("c08_rounds_split_over_several_pdus".into(), 100), ("c08_immediate_gaps_judged".into(), 100), ("c08_round_repeats_judged".into(), 200), ("c08_later_lives_judged(deferred)".into(), 200), ("c08_runs_with_receiver_suspend_resume".into(), 50), ("c08_runs_with_large_file_flag".into(), 200)],
         extra: vec![],
     };
     if let Some(r) = replay {
